@@ -187,7 +187,13 @@ func clientOffers(i *IPC, w http.ResponseWriter, r *http.Request) {
 			w.WriteHeader(http.StatusGatewayTimeout)
 			return
 		default:
-			panic("unknown error")
+			// Any other error means the request was refused (for example
+			// an invalid Snowflake-NAT-Type header). The legacy protocol
+			// has no status of its own for that; a panic here would drop
+			// the connection without any response.
+			log.Printf("legacy client request refused: %s", resp.Error)
+			w.WriteHeader(http.StatusBadRequest)
+			return
 		}
 	}
 
